@@ -2,6 +2,8 @@
 mod driver;
 mod fam_sel;
 mod fam_stack;
+mod mutants;
+mod selcommon;
 mod prims;
 mod report;
 mod rng;
